@@ -52,12 +52,33 @@ def touchedDecls (f : FileM) (sites : List Site) : List Nat :=
           (match nonImp[j]? with | some d => hasId s.parent d | none => false)))
   | _ => []
 
+mutual
+def idsV : V → List Nat
+  | .iface _ v => idsV v
+  | .slice _ vs => idsL vs
+  | .ptr _ id fs => id :: idsL fs
+  | _ => []
+def idsL : List V → List Nat
+  | [] => []
+  | v :: vs => idsV v ++ idsL vs
+end
+
+/-- does a change rewrite a slot inside an import declaration?  The model keeps the imports of a file as a list next
+to the tree; a rewrite *inside* an import spec (a bare expression metavariable matches the path literal) changes the
+one and not the other.  Such cases are outside the model and are not compared. -/
+def siteInImports (f : FileM) (sites : List Site) : Bool :=
+  match f.tree with
+  | .ptr _ _ (_ :: _ :: _ :: .slice _ decls :: _) =>
+      let ids := (decls.filter isImportGenDecl).flatMap idsV
+      sites.any (fun s => ids.contains s.parent)
+  | _ => false
+
 /-- per-change trace of the CLI-style loop, the declarations containing sites, and the missed instances -/
 def runChanges : List Change → FileM → List String → List Nat → Option Nat → FileM × List String × Option Err × List Nat × Option Nat
   | [], f, tr, td, ms => (f, tr, none, td, ms)
   | c :: cs, f, tr, td, ms =>
       let td' := match fileMatch c f with
-        | some (_, sites) => td ++ touchedDecls f sites
+        | some (_, sites) => if siteInImports f sites then td ++ [1000000] else td ++ touchedDecls f sites
         | none => td
       let ms' := match ms, missedCount c f with
         | some a, some b => some (a + b)
@@ -71,13 +92,15 @@ def handleEngine (sc : Option Schema) (id : String) (xs : List Sx) : String :=
   let changes := (Sx.field xs "changes").map decodeChange
   let file := decodeFile (Sx.field xs "file")
   let (f, tr, e, td, ms) := runChanges changes file [] [] (some 0)
+  let oom := td.contains 1000000
+  let td := td.filter (· != 1000000)
   let tds := " ".intercalate (td.eraseDups.map toString)
   let typed := match sc with
     | some sc => if wtv sc file.tree && nf file.tree then "1" else "0"
     | none => "?"
   let mss := match ms with | some k => toString k | none => "?"
   let kd := if changes.all (fun c => let ks := collectDots (sidePattern c c.minus); ks.all (fun k => ks.count k == 1)) then "1" else "0"
-  let extra := s!"(touched {tds}) (missed {mss}) (typed {typed}) (keysdistinct {kd})"
+  let extra := s!"(touched {tds}) (missed {mss}) (typed {typed}) (keysdistinct {kd}) (outofmodel {if oom then 1 else 0})"
   match e with
   | some e => s!"(res {id} (trace {" ".intercalate tr}) {extra} {errStr e})"
   | none => s!"(res {id} (trace {" ".intercalate tr}) {extra} (ok) {canonFile f})"
